@@ -120,6 +120,16 @@ func directedCases() []Input {
 			Extra: []string{"abc", "zaacbbbcac", "aabaac", "abcdefghi", "abcd", "b", "a\rc", "a\u2028c", "a\u2029c", "a\nc", "\v", "\u00a0", "\ufeff", "\u2028", "x y", "\r", "\t",
 				"e", "E", "g", "Z", "^", "\u017f", "\u212a", "S", "K", "\u00c9", "\u00e9", "SS", "\u00df", "\b", "\x00", "A", "/", "$", "abcdefghijkl", "a\nb", strings.Repeat("a", 12)}})
 	}
+	// every ordering of every flag subset, on patterns where each flag is observable
+	// (i: case, m: anchors at line terminators, g: lastIndex), both routes
+	for _, fl := range allFlagOrders {
+		for _, p := range []string{`^b`, `a$`, `^B.|c$`} {
+			for _, route := range []string{"ctor", "lit"} {
+				out = append(out, Input{Op: "match", P: p, F: fl, Route: route,
+					Extra: []string{"a\nB", "A\nb", "a\nb", "B\na", "ba", "AB", "a\nBa\nc", "C\nbA\nA"}})
+			}
+		}
+	}
 	// protocol histories with known interesting shapes
 	f := func(x float64) *gen.F { g := gen.F(x); return &g }
 	hist := func(p, fl string, steps ...Step) {
@@ -185,7 +195,8 @@ func genHistory(r *gen.Rand) Input {
 	}
 	in := Input{Op: "hist", P: p, F: genFlags(r), Route: "ctor"}
 	if r.Chance(2, 3) && !in.has('g') { // global expressions carry the state: make them the majority
-		in.F = "g" + in.F
+		pos := r.Intn(len(in.F) + 1) // any position: the order of flag characters is part of the input space
+		in.F = in.F[:pos] + "g" + in.F[pos:]
 	}
 	if litSafe(p) && r.Bool() {
 		in.Route = "lit"
